@@ -43,6 +43,9 @@ CHECKS = {
  "C07": dict(cat="exploration", engine="A", technique=ENGINE_A,
    text="168 start() programs (14 child behaviours x caller in body / sibling, each in its own scope, catching or not x cancel caller / group / none) x every placement of the environment actions; oracle from the order of started(), child end and start() return in the log (value only after started(), child's own exception otherwise without cancelling the group, child ended before a cancelled start() re-raises, later errors surface, second started() refused) plus the C02 leaf oracle.",
    note="Trusted: VLoop batching model."),
+ "C06": dict(cat="exploration", engine="A", technique=ENGINE_A + " on a virtual clock, discrete-event reference evaluated at observed event times",
+   text="~5900 (thorough ~60000) single-task programs: all assignments of deadlines {past,0,1,2,4,inf}, sleep durations, scope kinds (CancelScope/move_on_after/fail_after), inner shield and deadline re-assignments for two (three) nested scopes; every choice of letting the clock reach the next timer while the loop is busy; oracle: must/may-fired reference for every sleep/checkpoint outcome, cancel_called and cancelled_caught at exit, TimeoutError of fail_after, current_effective_deadline() probes, no firing after exit, no live timer at the end.",
+   note="Trusted: virtual clock model (time moves only at idle or at explorer-chosen batch boundaries); deadline == wake-up ties accepted either way."),
 }
 
 def main():
